@@ -294,6 +294,17 @@ func (aa *aliasAbs) cs(t *T) runeSet {
 		}
 	}
 	switch t.Op {
+	case "elems":
+		// a byte / rune slice assembled element by element
+		out := rsEmpty()
+		for _, e := range t.Elems {
+			es := aa.cs(e)
+			if es == nil {
+				return nil
+			}
+			out = rsUnion(out, es)
+		}
+		return out
 	case "slice":
 		return aa.cs(t.A[0])
 	case "binop":
@@ -437,8 +448,12 @@ func rulePXRegex(c *Ctx) []Obligation {
 		} else {
 			// the leftmost piece of a concatenation decides the first character
 			left := R
-			for left.Op == "binop" && left.Aux == "+" {
-				left = left.A[0]
+			for (left.Op == "binop" && left.Aux == "+") || (left.Op == "elems" && len(left.Elems) > 0) {
+				if left.Op == "elems" {
+					left = left.Elems[0]
+				} else {
+					left = left.A[0]
+				}
 			}
 			if left != R {
 				ls := aa.cs(left)
